@@ -1,6 +1,14 @@
 # Per-property run configuration for ./check. "quick"/"thorough" are case counts for rapid tests
 # (thorough counts are split over the shards) or the VERIF_N value handed to plain tests.
 CONFIG = {
+    "C13": {
+        "level": "exploration",
+        "level_text": "generated pairs of trips/vehicles over a deliberately small value domain (so data-equal pairs are common), with a catalogue of single-field, nil-vs-zero, boundary-shift and count edits at any stop-time-update index; the recorded hash input stream must be equal exactly when the harness's structural equality says the data is equal. Exploration: injectivity is a statement about all pairs, sampled densely where encodings are typically ambiguous",
+        "level_note": "observes the bytes written to the hash.Hash (concatenated), not a digest; values are canonical as the parser produces them (whole seconds, has-flag false => zero value); -0.0 and NaN floats not generated",
+        "technique": "property-based metamorphic pairs (rapid): copy => equal stream, single edit => different stream, independent pairs => stream equality iff structural equality",
+        "tests": [{"name": "TestC13", "quick": 40000, "thorough": 4000000}],
+        "assumptions": ["data equality is the harness's structural equality of the model (floats by value, instants by Unix second)"],
+    },
     "C20": {
         "level": "exploration",
         "level_text": "generated journals (thousands to ~10^6, stratified over presence patterns) exported and read back with encoding/csv against the journal values; exploration is the right level because the statement is a round-trip over an unbounded input space with a cheap total oracle",
